@@ -90,7 +90,7 @@ def points(t):
                 (('hashstop',), [H[0], H[1]])]
     if t == 'headers':
         alts = [[], [c01.header_from({})], [c01.header_from({'version': v}) for v in (-1, 0, 2 ** 31 - 1)], [c01.header_from({'nonce': i}) for i in range(253)]]
-        return [(('headers',), alts)] + [(('headers', 0, k), v) for k, d, v in c01.header_points()]
+        return [(('headers',), alts), (('as_blocks',), [True])] + [(('headers', 0, k), v) for k, d, v in c01.header_points()]
     if t == 'tx':
         return [(('tx',), [tx_model(i) for i in range(len(c01.TX_POOL))])]
     if t == 'block':
@@ -135,6 +135,9 @@ def norm(m):
         m['addrs'] = [na(a, True) for a in m['addrs']]
     elif t in ('inv', 'getdata', 'notfound'):
         m['inv'] = [(int(a), bytes(b)) for a, b in m['inv']]
+    elif t == 'headers':
+        if m.pop('as_blocks', False):
+            m['headers'] = [dict(h, merkle=W.txid(tx_model(0))) for h in m['headers']]
     elif t == 'tx':
         m['tx'] = W.norm_tx(m['tx'])
     elif t == 'block':
@@ -180,7 +183,11 @@ def lib_msg(m):
         o.locator.nVersion, o.locator.vHave = m['locator_version'], list(m['have'])
         o.hashstop = m['hashstop']
     elif t == 'headers':
-        o.headers = [C.lib_header(h) for h in m['headers']]
+        if m.get('as_blocks'):
+            # a CBlock is a CBlockHeader: a headers message built from block objects still carries headers only
+            o.headers = [C.lib_block(dict(h, vtx=[tx_model(0)], merkle=W.txid(tx_model(0)))) for h in m['headers']]
+        else:
+            o.headers = [C.lib_header(h) for h in m['headers']]
     elif t == 'tx':
         o.tx = C.lib_tx(m['tx'])
     elif t == 'block':
@@ -488,5 +495,66 @@ class FrameFaults(Family):
         raise Viol('frame with the magic of %s accepted on %s' % (other, ch), 'error', repr(r)[:80])
 
 
+class ChainFramingHistories(Family):
+    """every history of <= 4 (5) events over {select a chain, frame message i, parse a frame of message i made for the
+    selected chain, parse a frame made for another chain}: the magic written / required is that of the chain selected at
+    that moment, and repeated framing / parsing of the same type gives the same result each time"""
+    name = 'chain_framing_histories'
+    engine = 'E2'
+    nontrivial_rule = 'history contains a chain selection followed by framing or parsing'
+
+    TYPES = [0, 1, 9, 13]        # version, verack, headers, ping (pool indices)
+
+    def events(self):
+        return [('sel', c) for c in C.CHAINS] + [('frame', i) for i in self.TYPES] + [('parse', i) for i in self.TYPES] + [('parse_foreign', 13)]
+
+    def shards(self, tier):
+        return list(range(len(self.events())))
+
+    def cases(self, shard, tier):
+        from mc.core import all_sequences
+        return all_sequences(len(self.events()), 4 if tier == 'quick' else 5, first=shard)
+
+    def check(self, seq):
+        import bitcoin
+        import bitcoin.core
+        bitcoin.params = bitcoin.MainParams()
+        bitcoin.core.coreparams = bitcoin.core.CoreMainParams()
+        ev = self.events()
+        ms = pool()
+        cur = 'mainnet'
+        nt = False
+        for n, i in enumerate(seq):
+            kind, x = ev[i]
+            if kind == 'sel':
+                bitcoin.SelectParams(x)
+                cur = x
+                continue
+            nt = nt or n > 0
+            what = '%s %s on %s after %r' % (kind, ms[x]['type'], cur, [ev[j] for j in seq[:n]])
+            if kind == 'frame':
+                got = lib_msg(ms[x]).to_bytes()
+                want = pool_frames(cur)[x]
+                if got != want:
+                    raise Viol('%s: frame differs (magic %s)' % (what, got[:4].hex()), want[:24].hex(), got[:24].hex())
+            elif kind == 'parse':
+                fr = pool_frames(cur)[x]
+                f = io.BytesIO(fr)
+                try:
+                    r = parse_stream(f)
+                except Exception as e:  # noqa
+                    raise Viol('%s: a frame of the selected chain was rejected' % what, ms[x]['type'], '%s: %s' % (type(e).__name__, str(e)[:60]))
+                if r is None or model_of_msg(r) != norm(ms[x]) or f.tell() != len(fr):
+                    raise Viol('%s: parsed message differs' % what, norm(ms[x]), None if r is None else model_of_msg(r))
+            else:
+                other = [c for c in C.CHAINS if P.MAGIC[c] != P.MAGIC[cur]][0]
+                try:
+                    r = parse_stream(io.BytesIO(pool_frames(other)[x]))
+                except Exception:  # noqa
+                    continue
+                raise Viol('%s: a frame with the magic of %s was accepted' % (what, other), 'error', repr(r)[:60])
+        return 'ok', nt
+
+
 def families(tier):
-    return [Messages(), Streams(), FrameFaults()]
+    return [Messages(), Streams(), FrameFaults(), ChainFramingHistories()]
